@@ -273,6 +273,14 @@ def batches(tier, seed):
     out.append(("methods", {"g": "methods", "items": [], "seed": seed, "tier": tier}))
     if tier == "thorough":
         out.insert(0, ("pytest-suite", {"g": "pytest", "items": [], "seed": seed, "tier": tier}))
+        # the shared NumPy call-template catalogue (vf/gen/npcatalog.py, written for C06) as one more workload source
+        try:
+            from vf.gen import npcatalog
+            tids = [t.tid for t in npcatalog.catalog()]
+        except Exception:
+            tids = []
+        for i, c in enumerate(chunks(tids, 12)):
+            out.append((f"npcat/{i}", {"g": "npcat", "items": c, "seed": seed, "tier": tier}))
     return out
 
 
@@ -377,7 +385,8 @@ class Driver:
         if self.tier == "thorough":
             for au in aunits:
                 for fam in fams.values():
-                    out.append((au, r.choice(fam), r.choice(self.kinds)))
+                    for _ in range(2):
+                        out.append((au, r.choice(fam), r.choice(self.kinds)))
         else:
             for _ in range(quick_draws):
                 out.append((r.choice(aunits), r.choice(fams[r.choice(list(fams))]), r.choice(self.kinds)))
@@ -847,6 +856,40 @@ class Driver:
                                 self.run([name, form, aunit, variant, kind1, dt], f3, lambda: fn(env))
                             env.refresh()
 
+    # ------------------------------------------------------------------ shared NumPy call-template catalogue (thorough)
+    def g_npcat(self, items):
+        unyt, r = self.unyt, self.r
+        from vf.gen import npcatalog as nc
+        by = nc.by_tid()
+        assigns = ({"A": "km", "B": "s", "1": ""}, {"A": "degC", "B": "km", "1": ""}, {"A": "3*km", "B": "g", "1": ""})
+        for tid in items:
+            t = by.get(tid)
+            if t is None or "file" in t.tags or "opaque" in t.tags:
+                continue
+            for shape in t.shapes:
+                for ai, assign in enumerate(assigns):
+                    dt = r.choice(nc.DTYPES_THOROUGH)
+                    try:
+                        call = t.build(nc.Gen(r, dt, shape, r.choice(["int", "gen"])))
+                        args, kwargs, leaves = call.realize(nc.unit_wrapper(unyt, assign), layout=r.choice(nc.LAYOUTS))
+                    except nc.Skip:
+                        continue
+                    except Exception:
+                        self.rec.count("npcat:build-error")
+                        continue
+                    label = ["npcat", tid, shape, dt, assign["A"]]
+                    fault = "offset-unit" if assign["A"] == "degC" else None
+                    man = None
+                    asks_inplace = t.func_name.split(".")[-1] in ("median", "nanmedian", "percentile", "nanpercentile", "quantile", "nanquantile", "nan_to_num") or \
+                        kwargs.get("overwrite_input") is True or kwargs.get("copy") is False or kwargs.get("inplace") is True or \
+                        (t.func_name == "ndarray.byteswap" and (True in args[1:] or kwargs.get("inplace")))
+                    if "out" not in t.tags and "mutator" not in t.tags and not asks_inplace:
+                        man = self.obs.manual("npcat/" + t.func_name, inputs=[(p_, o) for p_, q, o in leaves])
+                    elif "mutator" in t.tags and t.kind == "method" and args and isinstance(args[0], np.ndarray):
+                        man = self.obs.manual("npcat/" + t.func_name, inputs=[(p_, o) for p_, q, o in leaves if o is not args[0]], targets=[("self", args[0])])
+                    self.rec.reach("npcat:" + t.func_name)
+                    self.run(label, fault, lambda: t.invoke(args, kwargs), manual=man)
+
     # ------------------------------------------------------------------ methods without a tap and unyt's own helpers
     def g_methods(self, items):
         unyt, r = self.unyt, self.r
@@ -1066,7 +1109,8 @@ def extra(tier, seed, results):
     unreached_ufuncs = sorted(u for u in ufs if not any(x.startswith(f"ufunc/{u}/") for x in reached))
     unreached_funcs = sorted(n for n in ("concatenate", "stack", "around", "clip", "choose", "einsum", "take", "dot", "outer", "copyto", "put", "place", "putmask",
                                           "put_along_axis", "fill_diagonal") if not any(x.startswith("func/" + n) for x in reached))
-    ev = {"sub_monitor_cells": sub, "faults_raised": fault_seen, "faults_returned": fault_returned, "failed_target_cells_by_exception": failed_by_exc,
+    npcat = sorted(x[len("npcat:"):] for x in reached if x.startswith("npcat:"))
+    ev = {"npcatalog_functions_driven": len(npcat), "sub_monitor_cells": sub, "faults_raised": fault_seen, "faults_returned": fault_returned, "failed_target_cells_by_exception": failed_by_exc,
           "unreached": {"taps": unreached_taps, "ufuncs": unreached_ufuncs, "out_functions": unreached_funcs},
           "raise_sites_hit": sorted(x[len("raise-site:"):] for x in reached if x.startswith("raise-site:"))[:200],
           "events": {k: v for k, v in counters.items() if k.startswith("event:")},
